@@ -107,3 +107,37 @@ pub fn c12_native_mu_plus_lambda() {
     }}
     println!("c12_native_mu_plus_lambda: {} cases checked", n);
 }
+
+/// `Merge`, `Generational`, `DiscardOffspring` (Verus units `simple_ops`, unbounded, on the pinned bodies): run natively on all
+/// population sizes 0..=3 x 0..=3 so that changed bodies the extractor cannot parse (tuple patterns, `extend` on a moved vector:
+/// seed C12_f left the Verus unit undecided) are still DECIDED: "all parents, all offspring, their concatenation" — the
+/// individuals, their objective values and their order, parents first.
+// @native-harness
+pub fn c12_native_simple_replacements() {
+    use crate::components::replacement::{DiscardOffspring, Generational, Merge};
+    let mut rng = Random::new(0);
+    let mut n = 0u64;
+    for np in 0..=3usize {
+        for no in 0..=3usize {
+            let parents: Vec<I> = (0..np).map(|i| ind(1 + i as u8, [3.0, 1.0, 2.0][i])).collect();
+            let offspring: Vec<I> = (0..no).map(|i| ind(101 + i as u8, [0.5, 4.0, 1.0][i])).collect();
+            let cat: Vec<I> = parents.iter().cloned().chain(offspring.iter().cloned()).collect();
+            let fail = |name: &str, got: &Vec<I>, want: &Vec<I>| -> ! {
+                eprintln!("COUNTEREXAMPLE {name} with {np} parents (tags 1..) and {no} offspring (tags 101..): result tags {:?}, expected {:?}",
+                          got.iter().map(|i| *i.solution()).collect::<Vec<_>>(), want.iter().map(|i| *i.solution()).collect::<Vec<_>>());
+                panic!("a replacement operator does not return what it is named for")
+            };
+            let r = <Merge as Replacement<ScalarProblem>>::replace(&Merge, parents.clone(), offspring.clone(), &mut rng).expect("Merge must not fail");
+            if r != cat { fail("Merge", &r, &cat) }
+            for mu in [0u32, 1, 2, 5] {
+                let g = Generational::from_params(mu);
+                let r = <Generational as Replacement<ScalarProblem>>::replace(&g, parents.clone(), offspring.clone(), &mut rng).expect("Generational must not fail");
+                if r != offspring { fail("Generational", &r, &offspring) }
+            }
+            let r = <DiscardOffspring as Replacement<ScalarProblem>>::replace(&DiscardOffspring, parents.clone(), offspring.clone(), &mut rng).expect("DiscardOffspring must not fail");
+            if r != parents { fail("DiscardOffspring", &r, &parents) }
+            n += 1;
+        }
+    }
+    println!("c12_native_simple_replacements: {} size combinations checked", n);
+}
